@@ -32,7 +32,14 @@ def gen(rng, tier):
         k = rng.randint(1, 4)
         samples = rng.sample(NAMES, k)
         target = rng.choice(samples + [rng.choice(NAMES)]) if rng.random() < 0.9 else "ZZ"
-        chroms = sorted(rng.sample([1, 2, 7, 23], rng.randint(1, 3)))
+        chroms = sorted(rng.sample([1, 2, 7, 10, 23], rng.randint(1, 3)))
+        if i % 4 == 3 and len(chroms) > 1:
+            # any other order of the chromosomes (by name: 1, 10, 2, X; descending; as given to --chroms): a chromosome's blocks stay
+            # together, which is all the format promises
+            o = list(chroms)
+            while o == chroms:
+                rng.shuffle(o)
+            chroms = o
         lines = []
         last_cm = {}  # chromosome -> the cM ends of the last block of every strand
         for s in samples:
@@ -189,6 +196,9 @@ def gen_plot(rng, tier):
                 pop = rng.choice([p for p in POPS if p != l["t"][0]])
                 cm = l["cm"] + 50
                 c["lines"].insert(i + 1, {"t": [pop, l["t"][1], str(int(l["t"][2]) + 1), f"{cm/10000:.4f}"], "cm": cm})
+            for e in c["ends"] or []:
+                # as in gen: no block of any strand lies beyond the listed end of its chromosome
+                e[1] = max([e[1]] + [l["cm"] for l in c["lines"] if len(l["t"]) > 1 and l["t"][1].replace("chr", "") == e[0]])
         n -= 1
         yield c
 
